@@ -88,6 +88,13 @@ static auto make_q() {
         total(total, mark) >= [](long a, char m) { return m == '!' ? a * 10 : -1; }));
 }
 
+// fourth grammar: rules without a functor whose left-side type also has an initializer_list constructor: the documented construction is
+// L(r1, ..., rn) (direct initialisation), so vec(3, 7) is three sevens and a unit rule passes its value through
+struct J { std::string repr; J() = default; J(int v) : repr(std::to_string(v)) {} J(std::initializer_list<J> l) { repr = "["; for (auto& x : l) repr += x.repr + ","; repr += "]"; } };
+constexpr nterm<std::vector<int>> vec("vec"); constexpr nterm<int> cnt("cnt"); constexpr nterm<J> jtop("jtop"); constexpr nterm<J> jatom("jatom");
+static auto make_v() { return parser(vec, terms('1', '2', '3'), nterms(vec, cnt), rules(vec(cnt, cnt), cnt('1') >= val(1), cnt('2') >= val(2), cnt('3') >= val(3))); }
+static auto make_j() { return parser(jtop, terms('1', '2'), nterms(jtop, jatom), rules(jtop(jatom), jatom('1') >= [](skip) { return J(1); }, jatom('2', jatom) >= [](skip, J&& j) { return J(std::move(j)); })); }
+
 int main(int argc, char** argv) {
     int n = argc > 1 ? std::atoi(argv[1]) : 5;
     static const auto p = make_p();
@@ -144,6 +151,22 @@ int main(int argc, char** argv) {
             if (!thrown.empty()) { ++fails; if (first.empty()) first = "deep right recursion, " + std::to_string(len) + " tokens: parse threw " + thrown; }
             else if (!r || *r != want) { ++fails; if (first.empty()) first = "deep right recursion, " + std::to_string(len) + " tokens: the functors did not receive their own children's values (result differs from the reversed input" + (r ? " at position " + std::to_string(std::mismatch(r->begin(), r->end(), want.begin(), want.end()).first - r->begin()) : std::string(", empty")) + ")"; }
             else ++accepted;
+        }
+    }
+    {   // grammar 4 on every input up to length 3
+        static const auto v = make_v(); static const auto j = make_j();
+        std::vector<std::string> in4{""}; for (size_t lo = 0, l = 0; l < 3; ++l) { size_t hi = in4.size(); for (size_t i = lo; i < hi; ++i) for (char c : {'1', '2', '3'}) in4.push_back(in4[i] + c); lo = hi; }
+        for (const std::string& in : in4) {
+            ++cases; ++checks;
+            bool wok = in.size() == 2; std::vector<int> want; if (wok) want.assign(size_t(in[0] - '0'), in[1] - '0');
+            auto r = v.parse(string_buffer(std::string(in)));
+            if (r.has_value() != wok || (wok && *r != want)) { ++fails; if (first.empty()) { std::string got = "empty"; if (r) { got = "{"; for (int x : *r) got += std::to_string(x) + ","; got += "}"; } first = "grammar 4 (vec(cnt, cnt) without functor) input '" + in + "': got " + got + ", the documented construction std::vector<int>(" + (wok ? std::string(1, in[0]) + ", " + in[1] : std::string("-")) + ") gives " + std::to_string(want.size()) + " elements"; } }
+            if (wok) ++accepted;
+            ++cases; ++checks;
+            bool jok = !in.empty() && in.back() == '1' && in.find_first_not_of('2') == in.size() - 1;
+            auto rj = j.parse(string_buffer(std::string(in)));
+            if (rj.has_value() != jok || (jok && rj->repr != "1")) { ++fails; if (first.empty()) first = "grammar 4 (unit rule jtop(jatom) without functor) input '" + in + "': got " + (rj ? rj->repr : std::string("empty")) + " expected " + (jok ? "1 (the value passed through)" : "empty"); }
+            if (jok) ++accepted;
         }
     }
     std::string esc; for (char c : first) { if (c == '"' || c == '\\') esc += '\\'; esc += c; }
